@@ -200,6 +200,10 @@ func (ks *KeyStorage) UnmarshalBinary(data []byte) error {
 	ks.mx.Lock()
 	defer ks.mx.Unlock()
 
+	// the serialized form replaces whatever the storage held before: unmarshalling into a non-empty
+	// message would merge (key slots and the HMAC missing from data would survive from the previous state)
+	ks.underlying.Reset()
+
 	if err := ks.underlying.UnmarshalVT(data); err != nil {
 		return fmt.Errorf("failed to unmarshal key storage: %w", err)
 	}
